@@ -1,10 +1,46 @@
-import AcraModel.Basic.Bytes
+import AcraModel.KeystoreSec.Path
+import AcraModel.KeystoreSec.Der
+import Driver.C18
+import AcraModel.KeystoreSec.WriteLog
+import AcraModel.Crypto.Shim
 /-! Driver ops for C07. -/
 namespace Driver.C07
-open AcraModel
+open AcraModel AcraModel.KeystoreSec
+
+def outHex : Out Bytes → String
+  | .ok b => "ok " ++ hexOf b
+  | .err => "err"
+  | .panic => "panic"
 
 def handle (op : String) (args : List String) : Option String :=
   match op, args with
+  | "clean", [p] => do let p ← ofHex p; pure (hexOf (Path.clean p))
+  | "join", [a, b] => do let a ← ofHex a; let b ← ofHex b; pure (hexOf (Path.join2 a b))
+  | "rel", [a, b] => do
+      let a ← ofHex a; let b ← ofHex b
+      pure (match Path.rel a b with | some r => "ok " ++ hexOf r | none => "err")
+  | "ospath", [root, p] => do let root ← ofHex root; let p ← ofHex p; pure (outHex (Path.osPath root p))
+  | "ospath.pinned", [root, p] => do let root ← ofHex root; let p ← ofHex p; pure (outHex (Path.osPathPinned root p))
+  | "ringfile", master :: sigKey :: time :: ring :: nonces => do
+      -- nonces: `<ctx hex>=<nonce hex>` pairs, one per encrypted field
+      let master ← ofHex master; let sigKey ← ofHex sigKey
+      let time ← Driver.C18.parseInt time
+      let ring ← Driver.C18.parseRing ring
+      let tbl ← nonces.mapM fun s => match s.splitOn "=" with
+        | [a, b] => do let a ← ofHex a; let b ← ofHex b; pure (a, b)
+        | _ => none
+      let ν : Export.Nonces := fun x _ => ((tbl.find? (·.1 = x)).map (·.2)).getD []
+      pure (match WriteLog.ringFile shimOps ν master sigKey time ring with
+        | some b => "ok " ++ hexOf b
+        | none => "err")
+  | "der.int", [n] => do let n ← Driver.C18.parseInt n; pure (hexOf (Der.derInt n))
+  | "der.time", [n] => do let n ← Driver.C18.parseInt n; pure (hexOf (Der.utcTime n))
+  | "der.ring", [r] => do let r ← Driver.C18.parseRing r; pure (hexOf (Der.derRing r))
+  | "der.keys", n :: rs => do
+      let n ← n.toNat?
+      if rs.length ≠ n then none
+      let rs ← rs.mapM Driver.C18.parseRing
+      pure (hexOf (Der.derEncryptedKeys rs))
   | _, _ => none
 
 end Driver.C07
